@@ -125,4 +125,13 @@ TEXT["C19"] = {
             "judged by the property itself (prefix / error / count), not by equality with the model.",
     "note": COMMON_NOTE + "The theorem is about run_writes (every Write result checked and returned); a dropped error check in Go "
             "shows as a concrete k in the correspondence run."}
+TEXT["C10"] = {
+    "text": "PARTIAL. Proved: every parser model (CBOR decoder, structured headers, MI decoder, cert-chain reader, signed-exchange "
+            "reader, bundle reader incl. signatures section, integrity-block detection) returns a value or an error on every "
+            "input - never the model's Panic (Go run-time panic) or Fuel (non-termination) outcome - with fuel linear in the "
+            "input; declared counts are consumed byte by byte. The models are tied to the code by the malformed-input streams of "
+            "C05/C12/C15/C16 plus adversarial declared-length inputs for every format. Memory of the real allocator is "
+            "MEASURED (runtime.MemStats around each call, bound 48 MiB + 24 x input), not proved.",
+    "note": COMMON_NOTE + "Go runtime, allocator, stack depth and GC are not modelled; the memory bound is sampled. Known finding K1 "
+            "(bundle.Read copies a shared response once per index entry) is listed in known-findings.json."}
 NOT_YET = {}
